@@ -7,12 +7,11 @@ func vh_subnet_contains() {
 	la := []int{0, 4, 16}[vnChoice("addrlen", 3)]
 	id, mask := vnString("id", ls), vnString("mask", ls)
 	s, err := NewSubnet(Address(id), AddressMask(mask))
-	wellFormed := true
+	var bad byte
 	for i := 0; i < ls; i++ {
-		if id[i]&^mask[i] != 0 {
-			wellFormed = false
-		}
+		bad |= id[i] &^ mask[i]
 	}
+	wellFormed := bad == 0
 	vassert((err == nil) == wellFormed, "NewSubnet accepts exactly the addresses that are zero outside the mask")
 	if err != nil {
 		vreach("rejected")
@@ -21,11 +20,11 @@ func vh_subnet_contains() {
 	a := Address(vnString("addr", la))
 	want := la == ls
 	if want {
+		var diff byte
 		for i := 0; i < ls; i++ {
-			if a[i]&mask[i] != id[i] {
-				want = false
-			}
+			diff |= (a[i] & mask[i]) ^ id[i]
 		}
+		want = diff == 0
 	}
 	vassert(s.Contains(a) == want, "Subnet.Contains: same address family and bitwise prefix match")
 	r := Route{Destination: Address(id), Mask: AddressMask(mask)}
